@@ -41,6 +41,8 @@ Definition s_sel (f : option value) (q : list spec) (p : spec) (r : srec) : bool
 Definition h_sel (f : option value) (q : list spec) (r : hrec) : bool :=
   let '(q', f', _) := r in lspec_eqb q' q && f_sel f f'.
 
+Definition value_eqb (a b : value) : bool := Nat.eqb (vid a) (vid b) && Nat.eqb (veq a) (veq b).
+
 Definition nonempty {A} (l : list A) : bool := match l with [] => false | _ => true end.
 
 (* ledger', return value, removed, added *)
@@ -69,7 +71,7 @@ Definition spec_step (L : ledger) (o : cop) : outcome :=
       let q := map conv req in
       match find (a_key q p n) (l_a L) with
       | Some (_, _, _, of, oi) =>
-          if v_is of f && Nat.eqb (veq of) (veq f) && Nat.eqb oi i then (L, RNone, [], [])   (* the very same registration *)
+          if value_eqb of f && Nat.eqb oi i then (L, RNone, [], [])   (* the very same registration *)
           else (mkL (l_u L) (map (fun r => if a_key q p n r then (q, p, n, f, i) else r) (l_a L)) (l_s L) (l_h L),
                 RNone, [RA q p n of oi], [RA q p n f i])
       | None => (mkL (l_u L) (l_a L ++ [(q, p, n, f, i)]) (l_s L) (l_h L), RNone, [], [RA q p n f i])
@@ -115,7 +117,6 @@ Definition o_added (x : outcome) : list regrec := snd x.
 Definition ledger_of (ops : list cop) : ledger := fold_left (fun L o => o_ledger (spec_step L o)) ops lempty.
 
 (* ---- events *)
-Definition value_eqb (a b : value) : bool := Nat.eqb (vid a) (vid b) && Nat.eqb (veq a) (veq b).
 Definition onat_eqb (a b : option nat) : bool :=
   match a, b with None, None => true | Some x, Some y => Nat.eqb x y | _, _ => false end.
 Definition ovalue_eqb (a b : option value) : bool :=
